@@ -122,6 +122,31 @@ func c14CheckSeries(c *Case) []Violation {
 		}
 		return vs
 	}
+	// the same series again with minValue left out (documented default 0): for the increasing family this is the series
+	// starting at 0, for the decreasing family it is out of range — whatever an earlier run used must not linger
+	if min != 0 {
+		var got2 []float64
+		rejected2 := false
+		func() {
+			defer func() {
+				if e := recover(); e != nil {
+					rejected2 = true
+				}
+			}()
+			lv := sl.Find(name, map[string]interface{}{"coefficient": coef, "maxValue": max}, c14Sources(inc))
+			lv.Initialize(dmp)
+			for lv.HasNext() && len(got2) < seriesCap {
+				got2 = append(got2, lv.Next()["c1"])
+			}
+		}()
+		ref2, valid2, _ := refRatios(inc, name, coef, 0, max)
+		switch {
+		case !valid2 && !rejected2:
+			vs = append(vs, viol(c, "C14/omitted-min-not-default", "%s with minValue left out (default 0, out of range for this series) was accepted after a run with minValue %v", name, min))
+		case valid2 && (rejected2 || len(got2) != len(ref2)):
+			vs = append(vs, viol(c, "C14/omitted-min-not-default", "%s with minValue left out yields %d levels (rejected=%v), the series from the default 0 has %d (previous run used minValue %v)", name, len(got2), rejected2, len(ref2), min))
+		}
+	}
 	ci := critInfo{ID: "c1", Cost: cost, Lo: lo, Hi: hi}
 	if len(got) != len(refR) {
 		return []Violation{viol(c, "C14/length", "%s coefficient=%v min=%v max=%v yields %d levels, the documented series has %d", name, coef, min, max, len(got), len(refR))}
